@@ -2419,16 +2419,29 @@ class DiskObjectStore(PackBasedObjectStore):
             if f.tell() > 0:
                 f.seek(0)
 
-                # Scope the mapping to indexing: _complete_pack writes to and
-                # renames this same file, which a live mapping blocks on
-                # Windows. PackData.close() leaves f open for it to finish.
-                with PackData(path, file=f, object_format=self.object_format) as pd:
-                    indexer = PackIndexer.for_pack_data(
-                        pd,
-                        resolve_ext_ref=self.get_raw,
-                    )
-                    entries, ext_refs = self._index_pack(indexer, len(pd))  # type: ignore[arg-type]
-                return self._complete_pack(f, path, entries, ext_refs)
+                try:
+                    # Scope the mapping to indexing: _complete_pack writes to and
+                    # renames this same file, which a live mapping blocks on
+                    # Windows. PackData.close() leaves f open for it to finish.
+                    with PackData(
+                        path, file=f, object_format=self.object_format
+                    ) as pd:
+                        # The trailer is what the sender vouches for: verify it
+                        # here, _complete_pack recomputes and overwrites it.
+                        pd.check()
+                        indexer = PackIndexer.for_pack_data(
+                            pd,
+                            resolve_ext_ref=self.get_raw,
+                        )
+                        entries, ext_refs = self._index_pack(indexer, len(pd))  # type: ignore[arg-type]
+                    return self._complete_pack(f, path, entries, ext_refs)
+                except BaseException:
+                    # a refused pack leaves nothing behind in objects/pack
+                    with suppress(OSError, BufferError):
+                        f.close()
+                    with suppress(OSError):
+                        os.remove(path)
+                    raise
             else:
                 f.close()
                 os.remove(path)
